@@ -45,9 +45,32 @@ func c04TempDir(pattern string) (string, error) {
 	return os.MkdirTemp("", pattern)
 }
 
+// c04FlagInit: the value every flag variable holds when the process starts, i.e. after all init() functions
+// have registered their flags.  It is the declared default unless two commands bind one variable with
+// different defaults (then the last registration wins, in the real binary too): a run is reset to THAT value,
+// so that the in-process runs see what a fresh goalign process sees.
+var c04FlagInit map[*pflag.Flag]string
+
+func c04SnapshotFlags(cm *cobra.Command) {
+	snap := func(f *pflag.Flag) {
+		if _, seen := c04FlagInit[f]; !seen {
+			c04FlagInit[f] = f.Value.String()
+		}
+	}
+	cm.Flags().VisitAll(snap)
+	cm.PersistentFlags().VisitAll(snap)
+	for _, sub := range cm.Commands() {
+		c04SnapshotFlags(sub)
+	}
+}
+
 func c04ResetFlags(cm *cobra.Command) {
 	reset := func(f *pflag.Flag) {
-		f.Value.Set(f.DefValue)
+		v := f.DefValue
+		if init, ok := c04FlagInit[f]; ok && init != f.DefValue && !strings.HasPrefix(init, "[") {
+			v = init
+		}
+		f.Value.Set(v)
 		f.Changed = false
 	}
 	cm.Flags().VisitAll(reset)
@@ -57,6 +80,10 @@ func c04ResetFlags(cm *cobra.Command) {
 // c04RunCLI executes goalign with the given arguments.
 func c04RunCLI(args []string) (err error, panicked bool, msg string) {
 	root := gcmd.RootCmd
+	if c04FlagInit == nil {
+		c04FlagInit = map[*pflag.Flag]string{}
+		c04SnapshotFlags(root)
+	}
 	target, _, _ := root.Find(args)
 	for p := target; p != nil; p = p.Parent() {
 		c04ResetFlags(p)
